@@ -157,7 +157,10 @@ func genAuthLine(r *rand.Rand, p *pool, strictOnly bool) lineSpec {
 		}
 		return s
 	}
-	c := r.IntN(20)
+	c := r.IntN(24)
+	if c >= 20 {
+		return genEscapeLine(r, k, strictOnly)
+	}
 	if strictOnly && c >= 17 {
 		c = r.IntN(17)
 	}
@@ -345,3 +348,79 @@ func assemble(r *rand.Rand, ls []lineSpec) (data []byte, ends []int) {
 
 func akParse(s string) (ak.AuthLine, string) { return ak.ParseAuthLine(s) }
 func khParse(s string) (ak.HostLine, string) { return ak.ParseHostLine(s) }
+
+// ---- quoted-option escapes ---------------------------------------------------------------
+// One tricky option specification per line; whether the line holds a key, and
+// its exact Options, is what the sshd model (h/ref/authkeysref: sshd's line
+// splitting loop, opt_dequote's escape rule) says, witnessed by ssh-keygen -l.
+
+var escapeSubclasses = []string{
+	"bs-run-before-quote-in-value", "bs-run-at-value-end", "bs-before-comma", "bs-before-blank", "bs-before-other",
+	"bs-unquoted", "quote-in-unquoted-text", "escaped-quote-at-value-start", "escaped-quote-at-value-end",
+	"empty-quoted-value", "unterminated-quote", "unterminated-quote-trailing-bs", "escaped-quote-unquoted",
+}
+
+func genEscapeSpec(r *rand.Rand, sub string) string {
+	bs := func(n int) string { return strings.Repeat(`\`, n) }
+	name := mon.Pick(r, []string{"command", "environment", "from", "principals"})
+	switch sub {
+	case "bs-run-before-quote-in-value": // 0..4 backslashes, a quote, then more value with a blank
+		return name + `="echo a` + bs(r.IntN(5)) + `"` + mon.Pick(r, []string{" b", ",b", "b", " b c"}) + `"`
+	case "bs-run-at-value-end": // 1..4 backslashes right before what was meant as the closing quote
+		return name + `="dir C:` + bs(1+r.IntN(4)) + `"`
+	case "bs-before-comma":
+		return name + `="a` + bs(1+r.IntN(2)) + `,b"`
+	case "bs-before-blank":
+		return name + `="a` + bs(1+r.IntN(2)) + mon.Pick(r, []string{" ", "\t"}) + `b"`
+	case "bs-before-other":
+		return name + `="a` + bs(1+r.IntN(3)) + mon.Pick(r, []string{"n", "x41", "$", "'"}) + bs(r.IntN(3)) + `z"`
+	case "bs-unquoted":
+		return mon.Pick(r, []string{`foo\,bar`, `foo\\bar`, `foo\`, `\\`, `a\ b`, `tunnel=\1`})
+	case "quote-in-unquoted-text":
+		return mon.Pick(r, []string{`a"b c"d`, `a"b,c"d`, `x="1"y`, `"all quoted"`, `a""b`, `a"b"c"d e"f`, `pre"`})
+	case "escaped-quote-at-value-start":
+		return name + `="\"` + mon.Pick(r, []string{"", "a", " a", ",a"}) + `"`
+	case "escaped-quote-at-value-end":
+		return name + `="` + mon.Pick(r, []string{"a", "a b", "a,"}) + bs(2*r.IntN(2)) + `\""`
+	case "empty-quoted-value":
+		return mon.Pick(r, []string{name + `=""`, `""`, name + `="",no-pty`, `no-pty,` + name + `=""`})
+	case "unterminated-quote":
+		return name + `="abc` + mon.Pick(r, []string{"", " def", ",no-pty"})
+	case "unterminated-quote-trailing-bs":
+		return name + `="abc` + bs(1+r.IntN(4))
+	default: // escaped-quote-unquoted
+		return mon.Pick(r, []string{`a\"b`, `\"x`, `\"x y\"`, `a\\"b c"`, `\"`})
+	}
+}
+
+func genEscapeLine(r *rand.Rand, k *poolKey, strictOnly bool) lineSpec {
+	l := lineSpec{EOL: mon.Pick(r, eols)}
+	sub := mon.Pick(r, escapeSubclasses)
+	l.Class = "escapes:" + sub
+	specs := []string{genEscapeSpec(r, sub)}
+	switch r.IntN(4) { // ordinary neighbours
+	case 0:
+		specs = append([]string{mon.Pick(r, optFlags)}, specs...)
+	case 1:
+		specs = append(specs, mon.Pick(r, optFlags))
+	case 2:
+		specs = append(append([]string{`from="*.example.com"`}, specs...), "no-pty")
+	}
+	sep := mon.Pick(r, []string{" ", " ", "\t"}) // exactly one blank: ssh-keygen -l wants that (sshd does not)
+	if !strictOnly {
+		sep = mon.Pick(r, []string{" ", "\t", "  ", "\t\t", " \t", "\t "})
+	}
+	comment := mon.Pick(r, []string{"", "c", "user@host two words"})
+	l.Text = mon.Pick(r, leads) + strings.Join(specs, ",") + sep + k.Type + mon.Pick(r, seps) + k.B64
+	if comment != "" {
+		l.Text += mon.Pick(r, seps) + comment
+	}
+	// the model decides
+	ml, kind := ak.ParseAuthLine(l.Text)
+	if kind == ak.Key && ml.Type == k.Type && ml.B64 == k.B64 {
+		l.Strict, l.Key, l.Options, l.Comment = 1, k, ml.Options, ml.Comment
+	} else {
+		l.Strict = -1
+	}
+	return l
+}
